@@ -93,6 +93,10 @@ func (f *Fetcher) exchangeKeys(ctx context.Context) error {
 	if len(f.data.Cookie) == 0 {
 		return errNoCookies
 	}
+	if len(f.data.Cookie) > maxStoredCookies {
+		// A server should send eight cookies but may send more.
+		f.data.Cookie = f.data.Cookie[:maxStoredCookies]
+	}
 	if f.data.Algo != AES_SIV_CMAC_256 {
 		return errUnknownAlgo
 	}
